@@ -1,6 +1,9 @@
 #!/bin/sh
-# tools/run_all.sh [quick|thorough] [P]: run every registered check of the tier in parallel, print the summary lines
-tier=${1:-quick}; P=${2:-6}
+# tools/run_all.sh [quick|thorough] [P] [seed]: run every registered check of the tier in parallel, print the summary lines.
+# With a seed other than 0 the evidence goes to a scratch directory (the committed evidence comes from seed 0).
+tier=${1:-quick}; P=${2:-6}; seed=${3:-0}
 cd /verif
+if [ "$seed" != "0" ]; then ev="VERIF_EVIDENCE_DIR=/tmp/runall_ev_$seed"; else ev=""; fi
 for i in 01 02 03 04 05 06 07 08 09 10 11 12 13 14 15 16 17 18 19 20; do echo C$i; done | \
-  xargs -P $P -I{} sh -c "./check {} --tier $tier > /tmp/runall_{}_$tier.log 2>&1; echo \"{} exit=\$? \$(grep -E '^\[C' /tmp/runall_{}_$tier.log | head -1)\"" | sort
+  xargs -P $P -I{} sh -c "VERIF_SEED=$seed $ev ./check {} --tier $tier > /tmp/runall_{}_${tier}_$seed.log 2>&1; echo \"{} exit=\$? \$(grep -E '^\[C' /tmp/runall_{}_${tier}_$seed.log | head -1)\"" | sort
+rm -rf /tmp/runall_ev_$seed
